@@ -82,6 +82,9 @@ func (e *Env) monitorSplit(st *Step, kind string, ok bool) {
 		}
 		var parts []part
 		total := new(big.Rat)
+		// the code divides validator shares by the asset's share total in 18-digit fixed point: a share ratio r carries
+		// a relative error of up to 1e-18/r, which the split inherits (dust holdings of a validator)
+		resolution := new(big.Rat)
 		for i := range pre.Assets {
 			a := &pre.Assets[i]
 			vs := dcAmt(vi.VS, a.Denom)
@@ -96,6 +99,7 @@ func (e *Env) monitorSplit(st *Step, kind string, ok bool) {
 			srw := new(big.Rat).Mul(new(big.Rat).SetFrac(a.W, bigP), share)
 			parts = append(parts, part{a, srw, tt})
 			total.Add(total, srw)
+			resolution.Add(resolution, new(big.Rat).Quo(big.NewRat(1, 1_000_000_000_000_000_000), share))
 		}
 		if total.Sign() <= 0 || len(parts) < 2 {
 			continue
@@ -111,7 +115,8 @@ func (e *Env) monitorSplit(st *Step, kind string, ok bool) {
 				diff := new(big.Rat).Sub(got, want)
 				diff.Abs(diff)
 				// one base unit, plus a relative 1e-9 for the 18-digit index at small per-token amounts
-				tol := new(big.Rat).Add(big.NewRat(1, 1), new(big.Rat).Mul(want, big.NewRat(1, 1_000_000_000)))
+				rel := new(big.Rat).Add(big.NewRat(1, 1_000_000_000), new(big.Rat).Mul(resolution, big.NewRat(4, 1)))
+				tol := new(big.Rat).Add(big.NewRat(1, 1), new(big.Rat).Mul(want, rel))
 				// the per-token index itself is rounded to 1e-18: worth tt·1e-18 tokens
 				tol.Add(tol, new(big.Rat).Mul(p.tt, big.NewRat(1, 1_000_000_000_000_000_000)))
 				if diff.Cmp(tol) > 0 {
